@@ -1,6 +1,364 @@
-//! C14 — not built yet.
+//! C14 — journal-backed zones survive a stop at any point.
+//!
+//! A history: `beginj <origin> <rec>*` (zone loaded, real sqlite journal file attached,
+//! `persist_to_journal`), `upd P.. U..` messages (the `ZoneHandler::update` order, as in C12), then for
+//! every row count k `cut k`: the journal file is copied, rows with `_rowid_ > k` are deleted (every
+//! `insert_record` is its own sqlite commit, so these are exactly the on-disk states a stop can leave) and a
+//! handler is rebuilt from the copy with the real `SqliteZoneHandler::try_from_config`.  `restart k` does the
+//! same and continues the history on the recovered handler (journal = the cut copy); more `cut`s then give
+//! the second crash.  The generator writes `cutall` / `restartb n`, which are expanded into explicit
+//! `cut k` / `restart k` case lines when the row counts are known.
+//!
+//! Oracle (independent of the model): the recovered zone + serial equal the live handler's state at a
+//! message boundary not older than the last message whose rows (incl. its SOA row) are all ≤ k — i.e. the
+//! last acknowledged one; recovery never fails; after a restart every further message gets the same answer
+//! and leaves the same zone + serial as on a twin handler that never restarted.
+use std::path::{Path, PathBuf};
+
+use hickory_proto::rr::{Name, Record};
+use hickory_server::store::sqlite::{Journal, SqliteConfig, SqliteZoneHandler};
+use hickory_server::zone_handler::{AxfrPolicy, ZoneType};
+
+use super::c12::{self, Handler, Snap};
 use crate::common::*;
 
-pub fn run(_o: &Opts, rec: &mut Recorder) {
-    rec.rule = "stub".into();
+pub const CL_CUT: &str = "cut-inside-update-row-group";
+
+struct Boundary {
+    rows: usize,
+    snap: Snap,
+}
+
+struct Hist {
+    rt: tokio::runtime::Runtime,
+    dir: PathBuf,
+    origin: Name,
+    initial: Vec<Record>,
+    h: Option<Handler>,
+    /// messages executed so far (prerequisites, updates), one per boundary after the first
+    msgs: Vec<(Vec<Record>, Vec<Record>)>,
+    /// `boundaries[0]` = after the initial dump; `boundaries[i]` = after message i
+    boundaries: Vec<Boundary>,
+    /// the journal file the current handler writes to
+    live: PathBuf,
+    /// handler that never restarted (no journal), fed the same messages — only after a restart
+    twin: Option<Handler>,
+    restarts: u32,
+    n_files: u32,
+    hist_no: u64,
+}
+
+fn count_rows(path: &Path) -> usize {
+    Journal::from_file(path).map(|j| j.iter().count()).unwrap_or(0)
+}
+
+fn fast_pragmas(j: &Journal) {
+    // durability of sqlite is trusted, not tested: skip the fsyncs
+    let _ = j.conn().execute_batch("PRAGMA synchronous=OFF;");
+}
+
+/// copy of `src` cut after row k
+fn cut_copy(src: &Path, dst: &Path, k: usize) -> bool {
+    let _ = std::fs::remove_file(dst);
+    if std::fs::copy(src, dst).is_err() {
+        return false;
+    }
+    let Ok(j) = Journal::from_file(dst) else { return false };
+    let ok = j.conn().execute(&format!("DELETE FROM records WHERE _rowid_ > {k}"), ()).is_ok();
+    ok
+}
+
+/// the real start-up path of a journal-backed zone
+fn recover(rt: &tokio::runtime::Runtime, origin: &Name, journal: &Path) -> Result<Handler, String> {
+    let cfg = SqliteConfig {
+        zone_path: journal.with_extension("no-such-zone-file"),
+        journal_path: journal.to_path_buf(),
+        allow_update: true,
+        tsig_keys: vec![],
+    };
+    match catch(|| rt.block_on(SqliteZoneHandler::try_from_config(origin.clone(), ZoneType::Primary, AxfrPolicy::Deny, false, None, &cfg, None))) {
+        Ok(Ok(h)) => {
+            if let Some(j) = rt.block_on(h.journal()).as_ref() {
+                fast_pragmas(j);
+            }
+            Ok(h)
+        }
+        Ok(Err(e)) => Err(e),
+        Err(p) => Err(format!("panic: {p}")),
+    }
+}
+
+fn same_state(a: &Snap, b: &Snap) -> bool {
+    let mut x = a.rrs.clone();
+    let mut y = b.rrs.clone();
+    x.sort();
+    y.sort();
+    x == y && a.serial == b.serial
+}
+
+impl Hist {
+    /// judge a recovery from the first k rows of the live journal
+    fn judge_cut(&self, k: usize, got: &Result<Snap, String>, rec: &mut Recorder, idx: usize) {
+        // last boundary whose rows are all on disk = the last acknowledged message
+        let last = self.boundaries.iter().rposition(|b| b.rows <= k);
+        let inside = !self.boundaries.iter().any(|b| b.rows == k);
+        let class = if inside { CL_CUT } else { "" };
+        rec.stat(if inside { "cut.inside-row-group" } else { "cut.at-boundary" });
+        match got {
+            Err(e) => {
+                rec.stat(&format!("oracle.fail.{}", if inside { CL_CUT } else { "UNCLASSIFIED" }));
+                rec.fail(idx, format!("recovery from the journal cut after row {k} failed: {e}"), class);
+            }
+            Ok(s) => {
+                let ok = match last {
+                    Some(i) => self.boundaries[i..].iter().any(|b| same_state(&b.snap, s)),
+                    None => false, // stopped before the initial dump was complete: there is no boundary yet
+                };
+                if !ok {
+                    let what = match last {
+                        Some(i) => format!(
+                            "journal cut after row {k}: recovered zone (serial {}) is not the zone at any message boundary from message {i} (serial {}) on — a half-applied update",
+                            s.serial, self.boundaries[i].snap.serial
+                        ),
+                        None => format!("journal cut after row {k} (inside the initial zone dump): recovered a partial zone with {} records, serial {}", s.rrs.len(), s.serial),
+                    };
+                    rec.stat(&format!("oracle.fail.{}", if inside { CL_CUT } else { "UNCLASSIFIED" }));
+                    rec.fail(idx, what, class);
+                } else if let Some(i) = last {
+                    // the serial is never lower than one the server had answered with
+                    if c12::serial_lt(s.serial, self.boundaries[i].snap.serial) {
+                        rec.fail(idx, format!("recovered serial {} is lower than the acknowledged serial {}", s.serial, self.boundaries[i].snap.serial), class);
+                    }
+                }
+            }
+        }
+    }
+
+    fn do_cut(&mut self, k: usize, restart: bool, rec: &mut Recorder) {
+        // the third token only makes the case text unique per history (the model ignores it)
+        let line = format!("{} {k} h{}", if restart { "restart" } else { "cut" }, self.hist_no);
+        self.n_files += 1;
+        let dst = if restart { self.dir.join(format!("restart-{}.sqlite", self.n_files)) } else { self.dir.join("cut.sqlite") };
+        if !cut_copy(&self.live, &dst, k) {
+            rec.stat("skipped.cut-copy-failed");
+            return;
+        }
+        let r = recover(&self.rt, &self.origin, &dst);
+        let got: Result<Snap, String> = match &r {
+            Ok(h) => Ok(c12::snapshot(&self.rt, h)),
+            Err(e) => Err(e.clone()),
+        };
+        let out = match &got {
+            Ok(s) => format!("rec ok {} {} {}", s.serial, count_rows(&dst), s.dump),
+            Err(_) => "rec err".to_string(),
+        };
+        let idx = rec.case(line, out);
+        rec.stat(if restart { "op.restart" } else { "op.cut" });
+        self.judge_cut(k, &got, rec, idx);
+        if got.is_ok() && (self.boundaries.len() > 1 || restart) {
+            rec.nontrivial(idx);
+        }
+        if restart {
+            if let Ok(h) = r {
+                // continue on the recovered handler; what lies behind the cut never happened
+                let keep = self.boundaries.iter().filter(|b| b.rows <= k).count();
+                self.boundaries.truncate(keep.max(1));
+                self.msgs.truncate(self.boundaries.len() - 1);
+                // a twin that never restarted: initial zone + the surviving messages
+                let twin = c12::new_handler(&self.origin, &self.initial);
+                for (p, u) in &self.msgs {
+                    let _ = c12::run_update(&self.rt, &twin, p, u);
+                }
+                self.twin = Some(twin);
+                self.h = Some(h);
+                self.live = dst;
+                self.restarts += 1;
+            }
+        }
+    }
+}
+
+fn exec(line: &str, hist: &mut Hist, rec: &mut Recorder) {
+    let t: Vec<&str> = line.split_whitespace().collect();
+    match t.as_slice() {
+        ["beginj", origin, recs @ ..] => {
+            let (Some(o), Some(rs)) = (parse_name(origin), recs.iter().map(|x| c12::parse_rec(x)).collect::<Option<Vec<_>>>()) else {
+                rec.stat("skipped.unparsable-case");
+                return;
+            };
+            hist.h = None;
+            hist.twin = None;
+            let _ = std::fs::remove_dir_all(&hist.dir);
+            std::fs::create_dir_all(&hist.dir).expect("journal dir");
+            hist.live = hist.dir.join("live.sqlite");
+            let mut h = c12::new_handler(&o, &rs);
+            let j = Journal::from_file(&hist.live).expect("journal");
+            fast_pragmas(&j);
+            let persisted = hist.rt.block_on(async {
+                h.set_journal(j).await;
+                h.persist_to_journal().await
+            });
+            if persisted.is_err() {
+                rec.stat("skipped.persist-failed");
+                return;
+            }
+            let s = c12::snapshot(&hist.rt, &h);
+            let rows = count_rows(&hist.live);
+            rec.case(line.to_string(), format!("begin {} {} {}", s.serial, rows, s.dump));
+            rec.stat("op.beginj");
+            hist.origin = o;
+            hist.initial = rs;
+            hist.msgs.clear();
+            hist.boundaries = vec![Boundary { rows, snap: s }];
+            hist.h = Some(h);
+            hist.restarts = 0;
+            hist.n_files = 0;
+            hist.hist_no += 1;
+        }
+        ["end"] => {
+            rec.case(line.to_string(), "end".into());
+            hist.h = None;
+            hist.twin = None;
+        }
+        ["upd", rest @ ..] => {
+            let (Some(h), Some((p, u))) = (hist.h.as_ref(), c12::split_pu(rest)) else {
+                rec.stat("skipped.unparsable-case");
+                return;
+            };
+            let (stage, res) = c12::run_update(&hist.rt, h, &p, &u);
+            let after = c12::snapshot(&hist.rt, h);
+            let rows = count_rows(&hist.live);
+            let idx = rec.case(line.to_string(), format!("{stage} {res} {} {} {}", after.serial, rows, after.dump));
+            rec.stat("op.upd");
+            rec.stat(&format!("upd.{stage}.{res}"));
+            let prev_rows = hist.boundaries.last().map(|b| b.rows).unwrap_or(0);
+            rec.stat(&format!("upd.rows-appended.{}", (rows - prev_rows).min(6)));
+            if hist.restarts > 0 {
+                rec.stat("upd.after-restart");
+                rec.nontrivial(idx);
+                // behaves as if no restart had happened
+                if let Some(tw) = hist.twin.as_ref() {
+                    let (ts, tr) = c12::run_update(&hist.rt, tw, &p, &u);
+                    let tsnap = c12::snapshot(&hist.rt, tw);
+                    if ts != stage || tr != res {
+                        rec.fail(idx, format!("after recovery the update answered {stage}/{res}; without a restart it answers {ts}/{tr}"), "");
+                    } else if !same_state(&tsnap, &after) {
+                        rec.fail(idx, format!("after recovery the update left a different zone than without a restart (serial {} vs {})", after.serial, tsnap.serial), "");
+                    }
+                }
+            }
+            if res == "panic" {
+                rec.fail(idx, "update panicked".to_string(), "");
+            }
+            hist.msgs.push((p, u));
+            hist.boundaries.push(Boundary { rows, snap: after });
+        }
+        ["cut", k] | ["cut", k, _] => {
+            if let (Some(_), Ok(k)) = (hist.h.as_ref(), k.parse::<usize>()) {
+                hist.do_cut(k, false, rec);
+            }
+        }
+        ["restart", k] | ["restart", k, _] => {
+            if let (Some(_), Ok(k)) = (hist.h.as_ref(), k.parse::<usize>()) {
+                hist.do_cut(k, true, rec);
+            }
+        }
+        ["cutall"] => {
+            // every row count a stop can leave behind
+            if hist.h.is_some() {
+                let rows = count_rows(&hist.live);
+                for k in 0..=rows {
+                    hist.do_cut(k, false, rec);
+                }
+            }
+        }
+        ["restartb", n] => {
+            // restart at the n-th message boundary (counted from the end)
+            if let (Some(_), Ok(n)) = (hist.h.as_ref(), n.parse::<usize>()) {
+                let i = hist.boundaries.len() - 1 - (n % hist.boundaries.len());
+                let k = hist.boundaries[i].rows;
+                hist.do_cut(k, true, rec);
+            }
+        }
+        _ => rec.stat("skipped.unparsable-case"),
+    }
+}
+
+/// C12's message generator (SOA serials up to and across u32::MAX included)
+fn gen_msg(rng: &mut Rng) -> String {
+    let mut m = c12::gen_msg(rng);
+    // most C14 messages carry no prerequisites, so that more of them reach the journal
+    if rng.chance(3, 5) {
+        if let Some(u) = m.find(" U") {
+            m = format!("upd P{}", &m[u..]);
+        }
+    }
+    m
+}
+
+/// every fourth history starts one or two bumps before the serial wraps
+fn gen_begin(rng: &mut Rng) -> String {
+    let b = c12::gen_begin(rng, "beginj");
+    if rng.chance(1, 4) {
+        if let (Some(i), Some(j)) = (b.find(",s"), b.find(".0 ")) {
+            let serial = *rng.pick(&[4294967295u32, 4294967294, 4294967293]);
+            return format!("{},s{}{}", &b[..i], serial, &b[j..]);
+        }
+    }
+    b
+}
+
+fn gen_history(rng: &mut Rng) -> Vec<String> {
+    let mut v = vec![gen_begin(rng)];
+    for _ in 0..rng.range(1, 6) {
+        v.push(gen_msg(rng));
+    }
+    v.push("cutall".into());
+    if rng.chance(2, 3) {
+        // stop at a message boundary, recover, go on, and stop again anywhere
+        v.push(format!("restartb {}", if rng.chance(1, 2) { 0 } else { rng.below(4) }));
+        for _ in 0..rng.range(1, 4) {
+            v.push(gen_msg(rng));
+        }
+        v.push("cutall".into());
+        if rng.chance(1, 3) {
+            v.push("restartb 0".into());
+            v.push(gen_msg(rng));
+            v.push("cutall".into());
+        }
+    }
+    v.push("end".into());
+    v
+}
+
+pub fn run(o: &Opts, rec: &mut Recorder) {
+    rec.rule = "a recovery (`cut`/`restart`) from a journal that holds at least one UPDATE message, or an update issued after a restart (distinct by case text + position)".into();
+    let mut hist = Hist {
+        rt: c12::rt(),
+        dir: o.out.join("journals"),
+        origin: Name::root(),
+        initial: vec![],
+        h: None,
+        msgs: vec![],
+        boundaries: vec![],
+        live: PathBuf::new(),
+        twin: None,
+        restarts: 0,
+        n_files: 0,
+        hist_no: 0,
+    };
+    for l in &o.pre_lines {
+        exec(l, &mut hist, rec);
+    }
+    rec.corpus_cases = rec.cases.len();
+    let mut rng = Rng::new(o.seed);
+    for _ in 0..o.n(150, 6000) {
+        let mut r = rng.fork();
+        for l in gen_history(&mut r) {
+            exec(&l, &mut hist, rec);
+        }
+    }
+    hist.h = None;
+    hist.twin = None;
+    let _ = std::fs::remove_dir_all(&hist.dir);
 }
